@@ -87,6 +87,8 @@ def compare(exp, o, check_first=True, pattern=False):
         bad.append(("copy_extensions_differ_from_source", True, False))
     if lj.get("swap_exchanged_extensions") is False:
         bad.append(("swap_did_not_exchange_extensions", True, False))
+    if lj.get("rvalue_reextent_elements_ok") is False:
+        bad.append(("rvalue_reextent_left_elements_that_are_neither_kept_nor_value_initialised", True, False))
     if lj.get("ext_as_requested") is False:
         bad.append(("reextent_extensions_differ_from_requested", True, False))
     if lj.get("same_extents") and lj.get("same_data") is not True:
